@@ -4401,3 +4401,197 @@ func usernameIsDecodedUserinfo(c *Ctx, rule string) {
 	}
 	c.AtLeast(rule, "username attributes set in GetCredentialHelper", n, 1)
 }
+
+// newTransferCopiesServerFields (C18): newTransfer is the only way a batch response object becomes the Transfer an
+// adapter works on. Everything the server said about how the object may be accessed has to be carried over: name
+// and path from the queue, and oid, size, the authenticated flag and the actions from the response object.
+func newTransferCopiesServerFields(c *Ctx, rule string) {
+	p := c.P
+	fn := p.Fn("tq", "newTransfer")
+	if fn == nil || len(fn.Params) == 0 {
+		c.Missing(rule, "tq.newTransfer", "not found")
+		return
+	}
+	src := fn.Params[0]
+	set := map[string]ssa.Value{}
+	for _, b := range fn.Blocks {
+		for _, in := range b.Instrs {
+			if st, ok := in.(*ssa.Store); ok {
+				if fa, ok := st.Addr.(*ssa.FieldAddr); ok {
+					if tn, f := fieldAddrName(fa); tn == "tq.Transfer" {
+						set[f] = st.Val
+					}
+				}
+			}
+		}
+	}
+	for _, f := range []string{"Oid", "Size", "Authenticated"} {
+		v, ok := set[f]
+		good := false
+		if ok {
+			if tn, ff, base, isF := FieldOf(v); isF && tn == "tq.Transfer" && ff == f && SameVar(base, src) {
+				good = true
+			}
+		}
+		c.Check(good, rule, "newTransfer:copies:"+f, p.Pos(fn.Pos()), "the field is copied from the response object",
+			"newTransfer does not copy "+f+" from the batch response object: an object the server marked `authenticated` is requested with the user's own credentials added (and other per-object facts are lost)")
+	}
+	for _, f := range []string{"Name", "Path", "Actions"} {
+		_, ok := set[f]
+		c.Check(ok, rule, "newTransfer:sets:"+f, p.Pos(fn.Pos()), "the field is set", "newTransfer does not set "+f)
+	}
+}
+
+// extraHeadersAreAdded (C18): configured http.<url>.extraHeader values are added to a request; they never replace
+// a header the request already carries (an action's Authorization, the LFS media type). In ExtraHeadersFor every
+// value taken from the configuration is appended to what the copy of the request's headers holds for that name.
+func extraHeadersAreAdded(c *Ctx, rule string) {
+	p := c.P
+	fn := p.Fn("lfshttp", "(*Client).ExtraHeadersFor")
+	if fn == nil {
+		c.Missing(rule, "(*lfshttp.Client).ExtraHeadersFor", "not found")
+		return
+	}
+	n := 0
+	for _, b := range fn.Blocks {
+		for _, in := range b.Instrs {
+			mu, ok := in.(*ssa.MapUpdate)
+			if !ok {
+				continue
+			}
+			// does the value come from the configured extra headers?
+			fromCfg := false
+			for _, cn := range rootCallees(mu.Value, 0) {
+				if strings.HasSuffix(cn, ".extraHeaders") {
+					fromCfg = true
+				}
+			}
+			if ac, ok := mu.Value.(*ssa.Call); ok {
+				if bi, isB := ac.Call.Value.(*ssa.Builtin); isB && bi.Name() == "append" {
+					for _, e := range variadicOrdered(ac.Call.Args[1]) {
+						for _, cn := range rootCallees(e, 0) {
+							if strings.HasSuffix(cn, ".extraHeaders") {
+								fromCfg = true
+							}
+						}
+					}
+				}
+			}
+			if !fromCfg {
+				continue
+			}
+			n++
+			good := false
+			if ac, ok := mu.Value.(*ssa.Call); ok {
+				if bi, isB := ac.Call.Value.(*ssa.Builtin); isB && bi.Name() == "append" {
+					if lk, ok := ac.Call.Args[0].(*ssa.Lookup); ok && SameValue(lk.Index, mu.Key) && lk.X == mu.Map {
+						good = true
+					}
+				}
+			}
+			c.Check(good, rule, "extra-headers:appended#"+itoa(n), p.InstrPos(mu), "a configured extra header is appended to the values already present",
+				"a configured extra header replaces the values the request already has under that name: the Authorization an action offered, or the mandatory LFS Accept/Content-Type, is dropped from the request")
+		}
+	}
+	c.AtLeast(rule, "extra header values applied in ExtraHeadersFor", n, 1)
+}
+
+// noLoopCarriedFlagInTrack (C19): whether a pattern is "already supported" is decided for each argument of
+// `git lfs track` on its own. No boolean survives from one argument to the next: the loop over the arguments has no
+// loop-carried bool (a flag declared outside the loop and never reset makes every argument after the first
+// already-tracked one count as supported, and it is never written).
+func noLoopCarriedFlagInTrack(c *Ctx, rule string) {
+	p := c.P
+	fn := p.Fn("commands", "trackCommand")
+	if fn == nil {
+		c.Missing(rule, "commands.trackCommand", "not found")
+		return
+	}
+	var args *ssa.Parameter
+	for _, q := range fn.Params {
+		if short(q.Type().String()) == "[]string" {
+			args = q
+		}
+	}
+	n := 0
+	for _, l := range Loops(fn) {
+		ro := l.RangedOperand()
+		if ro == nil || args == nil || !SameVar(ro, args) {
+			continue
+		}
+		n++
+		good, which := true, ""
+		for _, in := range l.Header.Instrs {
+			ph, ok := in.(*ssa.Phi)
+			if !ok {
+				break
+			}
+			if b, isB := ph.Type().Underlying().(*types.Basic); !isB || b.Kind() != types.Bool {
+				continue
+			}
+			// carried: some back edge brings a value other than the one it had on entry
+			for i, e := range ph.Edges {
+				if l.Region[l.Header.Preds[i]] {
+					if _, isC := ConstBool(e); !isC {
+						good, which = false, ph.Comment
+					}
+				}
+			}
+		}
+		c.Check(good, rule, "track:per-argument-decisions", p.InstrPos(firstPositioned(l.Body)), "no boolean is carried from one argument to the next",
+			"a boolean ("+which+") survives from one argument of `git lfs track` to the next: after one argument that is already tracked every later one is reported as already supported and never written")
+	}
+	c.AtLeast(rule, "loops over the arguments of track", n, 1)
+}
+
+// configFileNamedVerbatim (C20): --file <name> is read and written through `git config --file <name>`, run in one
+// working directory for both. FindFile, SetFile and UnsetFileSection pass the name exactly as given: resolving it
+// on one side only makes install compare against one file and write another.
+func configFileNamedVerbatim(c *Ctx, rule string) {
+	p := c.P
+	n := 0
+	for _, name := range []string{"(*Configuration).FindFile", "(*Configuration).SetFile", "(*Configuration).UnsetFileSection"} {
+		fn := p.Fn("git", name)
+		if fn == nil {
+			c.Missing(rule, "git."+name, "not found")
+			continue
+		}
+		var file *ssa.Parameter
+		for _, q := range fn.Params {
+			if q.Name() == "file" || (file == nil && short(q.Type().String()) == "string") {
+				file = q
+			}
+		}
+		for _, q := range fn.Params {
+			if q.Name() == "file" {
+				file = q
+			}
+		}
+		for _, ci := range CallsIn(fn, "(*git.Configuration).gitConfig", "(*git.Configuration).gitConfigWrite") {
+			a := CallArgs(ci.Common())
+			vecs, ok := ArgVectors(a[len(a)-1])
+			if !ok {
+				c.Undecided(rule, "config-file:"+name, p.InstrPos(ci), "the argument vector could not be enumerated")
+				continue
+			}
+			n++
+			good := len(vecs) > 0
+			for _, vec := range vecs {
+				okVec := false
+				for i, e := range vec {
+					if s, isC := ConstString(e.V); isC && (s == "--file" || s == "-f") && i+1 < len(vec) {
+						if file != nil && SameVar(vec[i+1].V, file) {
+							okVec = true
+						}
+					}
+				}
+				if !okVec {
+					good = false
+				}
+			}
+			c.Check(good, rule, "config-file:name-passed-verbatim:"+strings.TrimPrefix(name, "(*Configuration)."), p.InstrPos(ci), "the file name follows --file exactly as given",
+				name+" does not hand the --file name to git as it was given: the value is looked up in one file and written to another, so custom filter settings in the file actually written are replaced without --force")
+		}
+	}
+	c.AtLeast(rule, "git config --file invocations", n, 3)
+}
